@@ -291,7 +291,14 @@ func VerifC13Event() {
 		if give {
 			sign = "+"
 		}
-		switch vLen("modekind", 0, 3) {
+		switch vLen("modekind", 0, 4) {
+		case 4: // two privilege changes with two arguments in one line
+			i2 := vLen("who2", 0, state.VNN-1)
+			vAssume(m.NOn[i2] && m.Mem[i2][j] && i2 != i)
+			pm2 := []byte{'o', 'v', 'h'}[vLen("privmode2", 0, 2)]
+			lines = append(lines, ":srv MODE "+m.CName[j]+" "+sign+string([]byte{pm, pm2})+" "+m.NName[i]+" "+m.NName[i2])
+			vSetPriv(&m.Priv[i][j], pm, give)
+			vSetPriv(&m.Priv[i2][j], pm2, give)
 		case 0:
 			lines = append(lines, ":srv MODE "+m.CName[j]+" "+sign+string([]byte{pm})+" "+m.NName[i])
 			vSetPriv(&m.Priv[i][j], pm, give)
